@@ -1,3 +1,4 @@
 //! Shared helpers of the conformance harness.
 pub mod util;
 pub mod bitops;
+pub mod prim;
